@@ -115,8 +115,9 @@ class Ctx:
         axioms_seen = []
         for b in blocks:
             if b.startswith("Axioms:"):
+                # an axiom entry starts in column 0 with its name; the ':' may wrap onto the next line
                 for line in b.splitlines()[1:]:
-                    mm = re.match(r"^([A-Za-z_][\w.']*)\s*:", line)
+                    mm = re.match(r"^([A-Za-z_][\w.']*)\s*(:|$)", line)
                     if mm:
                         axioms_seen.append(mm.group(1))
         bad = [a for a in axioms_seen if a not in AXIOM_ALLOW and a.split(".")[-1] not in {x.split(".")[-1] for x in AXIOM_ALLOW}]
